@@ -346,7 +346,7 @@ def workload(tier, seed):
                 yield "card", {"cls": cls, "L": L, "shift": shift}
         for L in range(2, (5 if tier == "quick" else 7)):
             yield "card", {"cls": cls, "L": L, "shift": 0, "repeated": True}
-    nb = 16 if tier == "quick" else 160
+    nb = 16 if tier == "quick" else 640
     for L in range(0, 7):
         for i in range(nb // 4):
             yield "opb_constraint", {"L": L, "rseed": seed * 1000 + i, "count": 60}
